@@ -45,9 +45,17 @@ NameOK(nm) ==
 (* Observation (the projection function of the conformance harness):       *)
 (* Len, ColumnNames, ColumnTypes, and every cell through the typed views.  *)
 (***************************************************************************)
+\* the name map of the frame (ColumnTypeMap, Contains) describes the same columns as the column list
+TmapOK(f, o) ==
+  "tmap" \notin DOMAIN o \/
+  /\ Len(o.tmap) = Len(f.cols)
+  /\ \A c \in 1..Len(f.cols) : \E k \in 1..Len(o.tmap) : o.tmap[k].name = f.cols[c].name /\ o.tmap[k].typ = f.cols[c].typ
+  /\ o.contains = 1
+
 ObsMatches(f, o) ==
   IF f.err THEN o.len = -1
   ELSE /\ o.len = f.n
+       /\ TmapOK(f, o)
        /\ o.names = Names(f)
        /\ o.types = Types(f)
        /\ Len(o.cols) = Len(f.cols)
